@@ -75,6 +75,9 @@ impl DecodeStats {
             }
         }
         drop(res);
+        if st.overflow {
+            *self.classes.entry("monitor:pointer table overflow".to_string()).or_default() += 1;
+        }
         if st.peak_live > alloc_bound(data.len()) {
             self.viol("decode allocated more than a small multiple of a legitimate packet", reference, data, format!("peak live growth {} bytes (bound {}), largest single request {}", st.peak_live, alloc_bound(data.len()), st.largest));
         }
